@@ -325,6 +325,20 @@ def run(world, rep, tier, only=None):
         rep.ob("C04.g", site(rj, "pre-replay flush waits for the device#%d" % i), not nosync,
                "`%s` is not given EXT2_FLAG_FLUSH_NO_SYNC" % c.text()[:50])
 
+    # ---------------- C04.h after the replay the file system is opened again the way it was opened before
+    # e2fsck_run_ext3_journal() frees the handle and opens the file system again to see what the replay wrote.  A file
+    # system given as "image?offset=N" (or with any other I/O option) is only found with those options: the re-open passes
+    # ctx->io_options, or every run replays, fails to re-open and exits 12 - the recovery never completes.
+    reop = [n for n in rj.call_nodes() if is_call(n, "ext2fs_open", "ext2fs_open2") and any(r in rj.reach_back([n]) for r in recs_)] + \
+        [n for n in rj.events("S") if any(cc.get("fn") in ("ext2fs_open", "ext2fs_open2") for cc in T.calls(n.ev.get("rhs") or {}))
+         and any(r in rj.reach_back([n]) for r in recs_)]
+    rep.floor("C04.h re-open after the replay", len(reop), 1)
+    for i, n in enumerate(reop):
+        cc = [c_ for c_ in ([n.ev["x"]] if n.ev["e"] == "C" else T.calls(n.ev.get("rhs") or {})) if c_.get("fn") in ("ext2fs_open", "ext2fs_open2")]
+        ok = any(c_.get("fn") == "ext2fs_open2" and any("io_options" in T.field_names(a_) for a_ in c_.get("a", []) if isinstance(a_, dict)) for c_ in cc)
+        rep.ob("C04.h", site(rj, "re-open passes the I/O options of the first open#%d" % i), ok,
+               "`%s` is ext2fs_open2(…, ctx->io_options, …)" % n.text()[:50])
+
     # ---------------- C04.e no second replay, stale flag cleaned (e2fsck only)
     prog = world.program("e2fsck")
     main = prog.fn("main", "e2fsck/unix.c")
